@@ -11,6 +11,8 @@ type Contract struct {
 	Ensures  []*Clause
 	Loops    map[string][]*Clause // loop key -> invariants
 	Raw      []string
+	Options  map[string]bool
+	Props    []string
 }
 
 type Clause struct {
@@ -20,7 +22,10 @@ type Clause struct {
 }
 
 type Contracts struct {
-	ByFunc map[string]*Contract
+	ByFunc  map[string]*Contract
+	Specs   map[string]*SpecFunc
+	Order   []string
+	Assumed []string
 }
 
 func (e *Exec) contractOf(fn *ssa.Function) *Contract {
